@@ -1,8 +1,47 @@
-(* C07 (PARTIAL): the classification the header parser assigns is the table classification
-   of the name text (C16); the tokenisation clauses (name/value extents, counts, flags,
-   first-of-type) are checked by the correspondence run and the render/parse oracle only. *)
-From Sipsp Require Import Harness Classify HdrLine.
-Theorem C07_type_is_classification_of_name_partial : forall pre rest i k st name,
+(* C07: header tokenisation is faithful to the text.
+   PROVED for the model, one header line (ParseHdrLine, generic value: no header specific value
+   parser attached), completeness direction: every text
+        name *WSP ":" *WSP [ token *( LWS token ) ] CRLF <byte that does not continue the line>
+   at any offset of any buffer is accepted at the end of the line; the name reported is exactly the
+   name text (no surrounding white space), the value runs from the first byte of the first token to
+   the last byte of the last token - across any separators the LWS skipper crosses: runs of SP/HT and
+   folded continuation lines (C07_separators) - an empty value is allowed, and the type is the table
+   classification of the name (C16).
+   PARTIAL: the block level clauses (one header per logical line in order, count including dropped
+   headers, type-flag set, first-of-type look-up) and lone CR / lone LF line ends are carried by the
+   render/parse oracle and the correspondence run; so is the converse direction. *)
+From Sipsp Require Import Harness Classify HdrLine FLineSpec HdrSpec.
+
+Theorem C07_header_line : forall p name wsb lead t1 tl d x,
+  nametok name -> name <> [] -> spaces wsb -> spaces lead -> tok t1 -> t1 <> [] -> good_tail tl -> is_sp d = false ->
+  let i := nnat (length p) in
+  let vstart := i + nnat (length name) + nnat (length wsb) + 1 + nnat (length lead) in
+  let value := t1 ++ flat tl in
+  parse_hdrline (p ++ name ++ wsb ++ (58 : byte) :: lead ++ value ++ CR :: LF :: d :: x) i (mkhline hdr0 None)
+  = Done (vstart + nnat (length value) + 2) EOk
+      (mkhline (mkhdr (get_hdr_type name) (mkpf i (nnat (length name))) (mkpf vstart (nnat (length value))) HFIN) None).
+Proof. exact header_line_spec. Qed.
+
+Theorem C07_header_line_empty_value : forall p name wsb lead d x,
+  nametok name -> name <> [] -> spaces wsb -> spaces lead -> is_sp d = false ->
+  let i := nnat (length p) in
+  parse_hdrline (p ++ name ++ wsb ++ (58 : byte) :: lead ++ CR :: LF :: d :: x) i (mkhline hdr0 None)
+  = Done (i + nnat (length name) + nnat (length wsb) + 1 + nnat (length lead) + 2) EOk
+      (mkhline (mkhdr (get_hdr_type name) (mkpf i (nnat (length name))) pf0 HFIN) None).
+Proof. exact header_line_empty_value_spec. Qed.
+
+Theorem C07_separators :
+  (forall sp, sp <> [] -> spaces sp -> lws_run sp) /\
+  (forall sp sp', spaces sp -> spaces sp' -> sp' <> [] -> lws_run (sp ++ CR :: LF :: sp')).
+Proof. exact (conj lws_run_spaces lws_run_fold). Qed.
+
+(* "Subject :  a b" CRLF SP "c" CRLF "X": name "Subject", value "a b\r\n c" *)
+Example C07_example :
+  parse_hdrline [83;117;98;106;101;99;116;32;58;32;32;97;32;98;13;10;32;99;13;10;88] 0 (mkhline hdr0 None)
+  = Done 20 EOk (mkhline (mkhdr (get_hdr_type [83;117;98;106;101;99;116]) (mkpf 0 7) (mkpf 11 7) HFIN) None).
+Proof. vm_compute. reflexivity. Qed.
+
+Theorem C07_type_is_classification_of_name : forall pre rest i k st name,
   zget pre rest i (h_name (hx_h st)) = Some name ->
   match hl_colon pre rest i k st with
   | Next _ st' => h_type (hx_h st') = get_hdr_type name
